@@ -11,7 +11,7 @@ func init() {
 		ID: "C01",
 		Explanation: "Agreement between the sibling halves and the order of identity consultation, decided structurally: (R01.1) Decrypt invokes Unwrap on identities[i] in ascending range order at a single site; (R01.1b/R01.9) every stanza of the header is offered to each identity and every stanza of every recipient is appended to the header, in order, by full-range loops; " +
 			"(R01.2) no Unwrap is reachable after one returned a nil error; (R01.3) in the four identity loops the loop continues only on errors.Is(err, ErrIncorrectIdentity), any other error is returned and success leaves the loop; (R01.4) in the four native unwrap functions a stanza of another type can only yield the sentinel; " +
-			"(R01.5-8) wrap/unwrap, payload-key, STREAM and armor recipes on both sides equal the specification table (so the halves are inverse by the table's DH-symmetry argument).",
+			"(R01.5-8) wrap/unwrap, payload-key, STREAM and armor recipes on both sides equal the specification table (so the halves are inverse by the table's DH-symmetry argument). (R01.16) no Unwrap/Wrap method of the module writes memory reachable from its argument: Decrypt offers one stanza list to every identity in turn.",
 		NotDecided:  "byte equality of round trips for all plaintext lengths (buffer arithmetic in Writer.Write, Reader.Read, writeWrapped) and correctness of the primitives.",
 		Assumptions: []string{"spec tables are correct; X25519 is commutative in the Diffie-Hellman sense"},
 		Technique:   "static analysis: loop-coverage and CFG path rules over go/ssa plus term recipes compared with the specification table",
